@@ -276,3 +276,22 @@ func init() {
 		return boolVal(r)
 	})
 }
+
+// bytes.Join with a symbolic element: the abstract byte string that concatenates the elements and separators.
+func init() {
+	regSym("bytes.Join", func(fr *frame, a []value) value {
+		parts, _ := a[0].([]value)
+		sep := bytesTerm(a[1])
+		var ts []*Term
+		for k, p := range parts {
+			if k > 0 {
+				ts = append(ts, sep)
+			}
+			ts = append(ts, bytesTerm(p))
+		}
+		if len(ts) == 0 {
+			return []value{}
+		}
+		return absBytes{mkConcat(ts...)}
+	})
+}
